@@ -11,7 +11,52 @@ import (
 const pkgDump = "internal/dump"
 
 // nodeSends lists the sends of *data.Node values on channels in fn: (instruction, value).
+// A small helper of the package that does nothing with a node but send its own parameter on
+// a channel is looked through: its call sites are the sends (of the argument), the helper
+// itself has none.
 func nodeSends(c *eng.Ctx, fn *ssa.Function) (ins []ssa.Instruction, vals []ssa.Value) {
+	if sendHelperParam(c, fn) >= 0 {
+		return nil, nil
+	}
+	ins, vals = nodeSendsDirect(c, fn)
+	for _, call := range eng.Calls(fn) {
+		callee := call.Common().StaticCallee()
+		if callee == nil || len(callee.Blocks) == 0 || eng.PkgOf(callee) != eng.PkgOf(fn) {
+			continue
+		}
+		if i := sendHelperParam(c, callee); i >= 0 && i < len(call.Common().Args) {
+			ins = append(ins, call.(ssa.Instruction))
+			vals = append(vals, call.Common().Args[i])
+		}
+	}
+	return
+}
+
+// sendHelperParam: if every node send of f sends one and the same parameter of f, its index; else -1.
+func sendHelperParam(c *eng.Ctx, f *ssa.Function) int {
+	if f.Parent() != nil || len(nodeTypesCompared(c, f)) > 0 {
+		return -1 // a literal, or a function that looks at the node's type itself
+	}
+	_, vals := nodeSendsDirect(c, f)
+	idx := -1
+	for _, v := range vals {
+		p, ok := v.(*ssa.Parameter)
+		if !ok {
+			return -1
+		}
+		for i, fp := range f.Params {
+			if fp == p {
+				if idx >= 0 && idx != i {
+					return -1
+				}
+				idx = i
+			}
+		}
+	}
+	return idx
+}
+
+func nodeSendsDirect(c *eng.Ctx, fn *ssa.Function) (ins []ssa.Instruction, vals []ssa.Value) {
 	nodeT := c.P.NamedType("internal/data.Node")
 	isNodePtr := func(t types.Type) bool {
 		pt, ok := t.(*types.Pointer)
